@@ -170,6 +170,8 @@ def make_jnp():
     ns.broadcast_to = A.broadcast_to
     ns.meshgrid = A.meshgrid
     ns.einsum = A.einsum
+    ns.argmax = A.argmax
+    ns.argmin = A.argmin
     ns.cross = A.cross
     ns.matmul = A.matmul
     ns.dot = A.matmul
